@@ -476,3 +476,39 @@ impl From<u8> for SocksVersion {
         Self::Unknown
     }
 }
+
+//@@ octo-squirrel/src/protocol/socks5/codec.rs:20-20  struct Socks5ClientEncoder  sha=c335d30ec0286755
+pub struct Socks5ClientEncoder;
+
+//@@ octo-squirrel/src/protocol/socks5/codec.rs:31-31  struct Socks5ServerEncoder  sha=5e76f44477ba09ba
+pub struct Socks5ServerEncoder;
+
+//@@ octo-squirrel/src/protocol/socks5/handshake.rs:56-66  mod server / fn no_auth  sha=4fe980a4e475e985
+fn s5srv__no_auth(stream: &mut TcpStream, response: Socks5CommandResponse, Tracked(vlog): Tracked<&mut S5Log>) -> Result<Socks5CommandRequest> {
+        let (rh, wh) = stream.split();
+        let mut reader = FramedRead::new(rh, Socks5InitialRequestDecoder);
+        reader.next(Tracked(vlog)).ok_or_else(|| verif_err())??;
+        let mut reader = FramedRead::new(reader.into_inner(), Socks5CommandRequestDecoder);
+        let mut writer = FramedWrite::new(wh, Socks5ServerEncoder);
+        writer.send(Box::new(Socks5InitialResponse::new(Socks5AuthMethod::NoAuth)), Tracked(vlog))?;
+        let command_request = reader.next(Tracked(vlog)).ok_or_else(|| verif_err())??;
+        writer.send(Box::new(response), Tracked(vlog))?;
+        Ok(command_request)
+    }
+
+//@@ octo-squirrel/src/protocol/socks5/handshake.rs:22-36  mod client / fn no_auth  sha=b4a5e80395cc2c5f
+fn s5cli__no_auth(command_type: Socks5CommandType, proxy_addr: SocketAddr, dst_addr: SocketAddr, Tracked(vlog): Tracked<&mut S5Log>) -> Result<Socks5CommandResponse> {
+        let mut stream = TcpStream::connect(proxy_addr)?;
+        let (rh, wh) = stream.split();
+        let mut writer = FramedWrite::new(wh, Socks5ClientEncoder);
+        writer.send(Box::new(Socks5InitialRequest::new(vec![Socks5AuthMethod::NoAuth])), Tracked(vlog))?;
+        let mut reader = FramedRead::new(rh, Socks5InitialResponseDecoder);
+        let initial_response = reader.next(Tracked(vlog)).ok_or_else(|| verif_err())??;
+        if initial_response.auth_method != Socks5AuthMethod::NoAuth {
+            return Err(verif_err());
+        }
+        writer.send(Box::new(Socks5CommandRequest::new(command_type, dst_addr.into())), Tracked(vlog))?;
+        let mut reader = FramedRead::new(reader.into_inner(), Socks5CommandResponseDecoder);
+        let command_response = reader.next(Tracked(vlog)).ok_or_else(|| verif_err())??;
+        Ok(command_response)
+    }
